@@ -31,6 +31,7 @@ func Run(k *report.Check) {
 	k.Explore(fmt.Sprintf("ziptree/d=%d", d(5, 6)), mc.Config{}, d(5, 6), zipTree)
 	k.Explore(fmt.Sprintf("heap/d=%d", d(7, 9)), mc.Config{}, d(7, 9), heapBody)
 	k.Explore(fmt.Sprintf("ppq/d=%d", d(6, 7)), mc.Config{}, d(6, 7), ppqBody)
+	k.Explore(fmt.Sprintf("ppq-4-5-partitions/d=%d", d(6, 7)), mc.Config{}, -d(6, 7), ppqBody)
 	k.Explore(fmt.Sprintf("sortedcache/d=%d", d(6, 8)), mc.Config{}, d(6, 8), cacheBody)
 	k.Explore(fmt.Sprintf("set/d=%d", d(4, 5)), mc.Config{}, d(4, 5), setBody)
 	k.Explore(fmt.Sprintf("sortedmap/d=%d", d(6, 8)), mc.Config{}, d(6, 8), sortedMapBody)
@@ -272,6 +273,15 @@ func (p *slicePart) Index() int        { return p.idx }
 func ppqBody(c *mc.Ctx) {
 	depth := c.Param.(int)
 	nparts := 2 + c.Choose(2)
+	wide := depth < 0 // four or five partitions: the heap of partitions has interior nodes with children
+	prios := 3
+	if wide {
+		depth = -depth
+		nparts, prios = 4, 2
+		if depth >= 7 {
+			nparts = 4 + c.Choose(2)
+		}
+	}
 	c.Op("parts=%d", nparts)
 	parts := make([]ds.QueuePartition[*pitem], nparts)
 	for i := range parts {
@@ -316,12 +326,17 @@ func ppqBody(c *mc.Ctx) {
 	}
 	deleted := false
 	for step := 0; step < depth; step++ {
-		op := c.Choose(4)
+		var op int
+		if wide { // the wide part leaves popping to the final drain
+			op = []int{0, 1, 3}[c.Choose(3)]
+		} else {
+			op = c.Choose(4)
+		}
 		switch op {
 		case 0:
 			step = depth
 		case 1:
-			it := &pitem{part: c.Choose(nparts), prio: c.Choose(3), id: id}
+			it := &pitem{part: c.Choose(nparts), prio: c.Choose(prios), id: id}
 			id++
 			c.Op("Push(part%d,p%d)", it.part, it.prio)
 			q.Push(it)
